@@ -74,7 +74,7 @@ def job_tamper(ses, proto, fkind, akind, mode):
         accepted = False
         for sd, rd in D:
             h = honest_for([se.log], inp); allq = list(sd.pc)
-            mark_secret_mac_keys(h, allq, inp.K)
+            mark_secret_mac_keys(h, allq, inp.K); with_compares(h, sd.log)
             if is_ok(rd):
                 accepted = True
                 goal = Or(Not(okset), rd[3][0] != inp.M)
